@@ -547,7 +547,7 @@ func c07pendingAcrossReconnect(viaResume bool) func() {
 // c07sendFails: the request cannot be written (the connection is broken for writing). SendIQ reports the error,
 // nothing stays registered for the request, and nothing it touched stays locked: a later request on a new
 // connection is answered, and inbound IQs are still routed.
-func c07sendFails(comp bool) func() {
+func c07sendFails(comp bool, late bool) func() {
 	return func() {
 		vrt.Quiet(true)
 		var end *c07end
@@ -588,6 +588,12 @@ func c07sendFails(comp bool) func() {
 			who = "component"
 		}
 		end.sc().raw.Peer().WriteFault = func(c *vnet.Conn, p []byte) (int, error) { return 0, errors.New("write: broken pipe") }
+		if late {
+			// the bytes go out, and the write is reported as failed all the same (an error of a layer above the
+			// socket: a traffic log that cannot be written, a deadline that passes as the write completes): the
+			// server answers, and that answer races with the failure path of SendIQ
+			end.sc().raw.Peer().WriteFault = func(c *vnet.Conn, p []byte) (int, error) { return len(p), errors.New("write: reported as failed") }
+		}
 		ctx, cancel := vrt.WithTimeout(vrt.Background(), 60*time.Second)
 		iq, _ := stanza.NewIQ(stanza.Attrs{Type: stanza.IQTypeGet, Id: "lost1", To: "example.org"})
 		iq.Payload = &stanza.DiscoInfo{}
@@ -601,6 +607,10 @@ func c07sendFails(comp bool) func() {
 		end.router.IQResultRouteLock.RUnlock()
 		if still {
 			vrt.Fail("C07|pending-entry-left|after-failed-send|"+who, "the request could not be written and SendIQ said so, yet it is still registered as pending")
+		}
+		if late {
+			vrt.Sleep(time.Second)
+			vrt.WaitIdle()
 		}
 		cancel()
 		vrt.WaitIdle()
@@ -743,7 +753,8 @@ func TestVerifC07(t *testing.T) {
 		scs = append(scs, hx.Scenario{Name: fmt.Sprintf("client/pending-across-reconnect/resume=%v", viaResume), Opt: vrt.Options{Bound: 1, Horizon: 50000}, Body: c07pendingAcrossReconnect(viaResume), Verdict: c07verdict})
 	}
 	for _, comp := range []bool{false, true} {
-		scs = append(scs, hx.Scenario{Name: fmt.Sprintf("send-fails/comp=%v", comp), Opt: vrt.Options{Bound: 1, Horizon: 50000}, Body: c07sendFails(comp), Verdict: c07verdict})
+		scs = append(scs, hx.Scenario{Name: fmt.Sprintf("send-fails/comp=%v", comp), Opt: vrt.Options{Bound: 1, Horizon: 50000}, Body: c07sendFails(comp, false), Verdict: c07verdict})
+		scs = append(scs, hx.Scenario{Name: fmt.Sprintf("send-fails-after-the-bytes-went-out/comp=%v", comp), Opt: vrt.Options{Bound: 2, Horizon: 50000}, Body: c07sendFails(comp, true), Verdict: c07verdict})
 	}
 	for _, n := range []int{3, 40} {
 		scs = append(scs, hx.Scenario{Name: fmt.Sprintf("client/many-handlers-waiting/n=%d", n), Opt: vrt.Options{Bound: 0, Horizon: 400000}, Body: c07manyHandlers(n), Verdict: c07verdict})
